@@ -8,6 +8,12 @@ use std::sync::atomic::{AtomicBool, AtomicU64, Ordering};
 use std::sync::Arc;
 use std::time::{Duration, Instant};
 
+/// Set for the Miri tier: generators keep payloads small (the interpreter is ~1000x slower).
+pub static SMALL: AtomicBool = AtomicBool::new(false);
+pub fn small() -> bool {
+    SMALL.load(Ordering::Relaxed)
+}
+
 #[derive(Clone, Copy, PartialEq, Eq, Debug)]
 pub enum Tier {
     /// tiny workload for Miri (interpreted, ~1000x slower)
@@ -114,6 +120,7 @@ pub const EXIT_SUSPECT_HANG: i32 = 3;
 
 pub fn run(monitor: &dyn Monitor, cfg: &RunCfg) -> i32 {
     let t0 = Instant::now();
+    SMALL.store(cfg.tier == Tier::Miri, Ordering::Relaxed);
     let mut streams = monitor.streams(cfg.tier);
     if let Some(only) = &cfg.only_stream {
         streams.retain(|s| s.name == only);
